@@ -336,6 +336,9 @@ M('c02-carry-wrong-8812-line', ['C02'], Y23 + 'f1040.py', "                retur
 M('c02-carry-halved', ['C02'], Y23 + 'f1040.py', "FloatField('20', lambda s, i, v: v['1040_s3.8'] if v['need_schedule_3_part_i'] else None),", "FloatField('20', lambda s, i, v: v['1040_s3.8'] * 0.5 if v['need_schedule_3_part_i'] else None),", 'R2', 'the amount carried from Schedule 3 line 8 is halved on Form 1040 line 20')
 M('c02-carry-spouse-form-dropped', ['C02'], Y23 + 'f1040_s1.py', "            hsa_deduction += v['8889:spouse.hsa_deduction'] if spouse_hsa else 0.0\n", "            hsa_deduction += v['8889:you.hsa_deduction'] if spouse_hsa else 0.0\n", None, 'Schedule 1 line 13 takes the taxpayer\'s Form 8889 line 13 twice and never the spouse\'s')
 
+M('c02-w2-wrong-box', ['C02'], Y23 + 'f8959.py', "FloatField('19', lambda s, i, v: float(sum([v[f'w-2:{n}.box_6'] for n in range(i['1040.number_w-2'])]))),", "FloatField('19', lambda s, i, v: float(sum([v[f'w-2:{n}.box_4'] for n in range(i['1040.number_w-2'])]))),", 'R2', 'Form 8959 line 19 totals W-2 box 4 (social security tax) instead of box 6 (Medicare tax)')
+M('c02-listing-total-skips-first', ['C02'], Y23 + 'f1040_sb.py', "FloatField('2', lambda s, i, v: sum([v[f'1_amount_{line}'] for line in range(NUM_FIELDS)])),", "FloatField('2', lambda s, i, v: sum([v[f'1_amount_{line}'] for line in range(1, NUM_FIELDS)])),", 'R2', 'Schedule B line 2 leaves the first listed payer out of the total')
+
 # ------------------------------------------------------------------ C15
 M('c15-floor-misplaced', ['C15'], Y22 + 'f1040.py', "FloatField('22', lambda s, i, v: max(0.0, v['18'] - v['21'])),", "FloatField('22', lambda s, i, v: max(0.0, v['18']) - v['21']),", 'R15.2', 'misplaced parenthesis lets line 22 go negative (seed C15-A)')
 M('c15-floor-removed', ['C15'], Y23 + 'f1040.py', "FloatField('15', lambda s, i, v: max(0.0, v['11'] - v['14'])), # Taxable income", "FloatField('15', lambda s, i, v: v['11'] - v['14']), # Taxable income", 'R15.2', 'taxable income can go negative')
